@@ -675,7 +675,7 @@ class GenB:
         rng.shuffle(defs)
         decl_queue = []
         pending_defs = list(defs)
-        n_target = rng.choice([15, 25, 25, 40, 60])
+        n_target = rng.choice([15, 25, 25, 40, 60] if not self.params.get("long") else [25, 40, 60, 90, 120])
         inject_budget = 1 if (self.params.get("faults", True) and rng.random() < 0.25) else 0
         early_queries = rng.random() < 0.6
         # per-run knob: build (almost) the whole system first, then a long declaration-free
